@@ -961,6 +961,15 @@ Inductive mode := MReq | MOpt | MSeg.
 Definition creatable (uty : option segtype) : bool :=
   negb (is_ty TSearch uty || is_ty TKeywordSearch uty || is_ty TMatchAll uty || is_ty TTraverse uty).
 
+(* Nodes.require_buildable_path(yaml_path, depth) (nodes.py, fix 45f1b07): beneath an
+   element that does not exist only Hash keys and non-negative Array indexes
+   can be built -- every ESCAPED segment from [from] on is a KEY or an INDEX
+   whose attribute is a non-negative int (a slice is an INDEX with a text) *)
+Definition buildable_seg (ps : pseg) : bool :=
+  let '(ty, a) := seg_es ps in
+  is_ty TKey ty || (is_ty TIndex ty && match a with AInt z => (0 <=? z)%Z | _ => false end).
+Definition buildable_tail (segs : list pseg) (from : nat) : bool := forallb buildable_seg (skipn from segs).
+
 (* the missing-element branch of _get_optional_nodes (processor.py:2463-2618):
    the refusals are modelled here, the node-creating branches are [creator].
    Since fix 09e1e7a the walk no longer stops at a null node (the old
@@ -970,6 +979,12 @@ Definition creatable (uty : option segtype) : bool :=
 Definition missing_element (segs : list pseg) (i : nat) (ps : pseg) (v : rval) (c : ctx) : gen rval :=
   let uty := fst (seg_us ps) in
   let a := snd (seg_es ps) in
+  (* (fix 45f1b07) before anything is built: Nodes.require_buildable_path(yaml_path, depth if data is None else
+     depth + 1), asked only for the segment types that build (a COLLECTOR runs into the refusals below) *)
+  if (is_ty TAnchor uty || is_ty TIndex uty || is_ty TKey uty)
+     && negb (buildable_tail segs (match v with RNode (NLeaf _ PNone) => i | _ => S i end))
+  then gerr (YPE Generic)
+  else
   match v with
   | RNode (NMap _ _) =>
       if is_ty TAnchor uty then gerr (YPE BadAlias)
